@@ -133,5 +133,5 @@ def run(repo, seed, tier):
                     'comprehensions, names spelled like stdlib alias keys); every def/class: parent() chain and full_name '
                     'vs ast nesting; every identifier in a body: get_context vs innermost enclosing def/class; header '
                     'positions skipped' % len(MODULES),
-            'samples': [m[0] for m in MODULES], 'violations': [v[0] for v in seen.values()][:10],
+            'samples': [m[0] for m in MODULES], 'violations': violations[:300],
             'violation_counts': {k: len(v) for k, v in seen.items()}}
